@@ -66,3 +66,28 @@ b(["C01", "C05", "C17"], "ddm-not-lt", CO + "ddm.py", "        if self.samples_s
 b(["C01", "C05"], "stepd-nested-if", CO + "stepd.py", "self.samples_since_reset >= 2 * self.window_size", "self.samples_since_reset >= self.window_size + self.window_size")
 b(["C01", "C04", "C17"], "cusum-int-ge", CD + "cusum.py", "        if self.samples_since_reset > self.burn_in:\n            if self.direction is None:", "        if self.samples_since_reset >= self.burn_in + 1:\n            if self.direction is None:")
 b(["C01", "C05"], "ddm-recs-temp", CO + "ddm.py", "            self._retraining_recs[1] = self.total_samples - 1", "            last = self.total_samples - 1\n            self._retraining_recs[1] = last")
+
+# ---------------------------------------------------------------- C02
+HDMF = DD + "histogram_density_method.py"
+s("C02", "ddm-reset-drop-min", CO + "ddm.py", '        self._error_rate_min = float("inf")\n        self._error_std_min = float("inf")\n        self._initialize_retraining_recs()\n\n    # XXX', '        self._error_std_min = float("inf")\n        self._initialize_retraining_recs()\n\n    # XXX', "LIVE")
+s("C02", "ph-reset-drop-sum", CD + "page_hinkley.py", "        self._min = 0\n        self._sum = 0\n        self._mean = 0\n\n        self._change_scores = []\n        self._page_hinkley_values = []\n        self._page_hinkley_differences = []\n        self._theta_threshold = []\n        self._drift_detected = []\n\n        self._maxes = []\n        self._mins = []\n        self._means = []\n\n    def to_dataframe", "        self._min = 0\n        self._mean = 0\n\n        self._change_scores = []\n        self._page_hinkley_values = []\n        self._page_hinkley_differences = []\n        self._theta_threshold = []\n        self._drift_detected = []\n\n        self._maxes = []\n        self._mins = []\n        self._means = []\n\n    def to_dataframe", "LIVE")
+s("C02", "stepd-reset-drop-window", CO + "stepd.py", "        self._s, self._r = 0, 0\n        self._window = []\n        self._test_statistic = None\n        self._test_p = None\n        self._initialize_retraining_recs()\n\n    def update", "        self._s, self._r = 0, 0\n        self._test_statistic = None\n        self._test_p = None\n        self._initialize_retraining_recs()\n\n    def update", "LIVE")
+s("C02", "kdqs-reset-drop-counter", DD + "kdq_tree.py", "        KdqTreeDetector.reset(self)\n        self._drift_counter = 0  # samples consecutively in the drift region", "        KdqTreeDetector.reset(self)", "LIVE")
+s("C02", "kdq-reset-keeps-tree", DD + "kdq_tree.py", "        self._test_data_size = 0\n        self._kdqtree = None\n", "        self._test_data_size = 0\n", "LIVE")
+s("C02", "revert-fix4-lambda", HDMF, "        self.total_epsilon = 0\n        self._lambda = self.total_batches\n", "        self.total_epsilon = 0\n", "LIVE")
+s("C02", "eddm-reset-max-one", CO + "eddm.py", "        self._dist_std = 0\n        self._max_numerator = 0\n        self._test_statistic = None\n        self._initialize_retraining_recs()\n\n    # XXX", "        self._dist_std = 0\n        self._max_numerator = 1\n        self._test_statistic = None\n        self._initialize_retraining_recs()\n\n    # XXX", "AGREE")
+s2("C02", "revert-fix3-cusum-index", CD + "cusum.py", [("                + (self._stream[-1] - self.target)", "                + (self._stream[self.samples_since_reset - 1] - self.target)"), ("                - (self._stream[-1] - self.target)", "                - (self._stream[self.samples_since_reset - 1] - self.target)")], "IDX")
+s("C02", "hdm-setref-no-reset", HDMF, "        self.reference = copy.deepcopy(X)\n        self.reset()", "        self.reference = copy.deepcopy(X)\n        BatchDetector.reset(self)", ["MC", "LIVE-setref"])
+s("C02", "hdm-drift-keeps-reference", HDMF, "                    self._drift_state = \"drift\"\n                    self.reference = X\n", "                    self._drift_state = \"drift\"\n", "PAIR")
+s("C02", "kdq-drift-stores-old-ref", DD + "kdq_tree.py", "                        self.ref_data = ary", "                        self.ref_data = self._ref_data", "PAIR")
+s("C02", "cusum-sd-from-head", CD + "cusum.py", "            self.sd_hat = np.std(self._stream[-self.burn_in :])", "            self.sd_hat = np.std(self._stream[: self.burn_in])", "AGREE")
+s("C02", "cusum-reestimate-after-reset", CD + "cusum.py", "            self.target = np.mean(self._stream[-self.burn_in :])\n            self.sd_hat = np.std(self._stream[-self.burn_in :])\n            self.reset()", "            self.reset()", "LIVE")
+s("C02", "ddm-total-in-rate", CO + "ddm.py", "+ (classifier_result - self._error_rate) / self.samples_since_reset", "+ (classifier_result - self._error_rate) / self.total_samples", "TNT-shift")
+s("C02", "nndvi-keep-old-ref", DD + "nndvi.py", "            self.set_reference(test_batch)", "            self.set_reference(self.reference_batch)", "PAIR")
+s("C02", "hdm-epsilon-survives", HDMF, "        self.epsilon = []\n        self.total_epsilon = 0", "        self.total_epsilon = 0", "LIVE")
+s("C02", "eddm-new-stat-not-reset", CO + "eddm.py", "        self._n_errors = 0\n        self._index_error_curr = 0\n        self._index_error_last = 0\n        self._dist_mean = 0\n        self._dist_std = 0\n        self._max_numerator = 0\n        self._test_statistic = None\n        self._initialize_retraining_recs()\n\n    # XXX", "        self._n_errors = 0\n        self._index_error_last = 0\n        self._dist_mean = 0\n        self._dist_std = 0\n        self._max_numerator = 0\n        self._test_statistic = None\n        self._initialize_retraining_recs()\n\n    # XXX", "LIVE")
+s("C02", "hdm-prevdist-unguarded", HDMF, "        if self.batches_since_reset >= 2:\n\n            if self.batches_since_reset == 2 and self.detect_batch != 3:", "        if self.total_batches >= 2:\n\n            if self.batches_since_reset == 2 and self.detect_batch != 3:", ["LIVE", "TNT-shift"])
+
+b(["C02"], "ddm-reset-reorder", CO + "ddm.py", "        self._error_rate = 0\n        self._error_std = 0\n        self._error_rate_min = float(\"inf\")", "        self._error_std = 0\n        self._error_rate = 0\n        self._error_rate_min = float(\"inf\")", nth=1)
+b(["C02", "C04"], "cusum-stream-last-temp", CD + "cusum.py", "        self._stream.append(X)\n", "        self._stream.append(X)\n        latest = self._stream[-1]\n")
+b(["C02", "C15"], "kdq-no-deepcopy", DD + "kdq_tree.py", "        BatchDetector.update(self, X, None, None)\n        ary = copy.deepcopy(X)", "        BatchDetector.update(self, X, None, None)\n        ary = X")
